@@ -111,6 +111,7 @@ func execute(c Case) (o outcome) {
 	limit := engine.ReadLimit
 	for i, s := range segs {
 		cp := append([]byte(nil), s...)
+		before, _ := cachedLen(p)
 		err := p.Parse(cp)
 		if afterErr {
 			if err == nil && o.violation == nil {
@@ -119,8 +120,9 @@ func execute(c Case) (o outcome) {
 			continue
 		}
 		if n, ok := cachedLen(p); ok && err == nil {
-			if limit > 0 && n > limit+len(s) && o.violation == nil {
-				o.violation = fmt.Errorf("after segment %d (len %d) the parser retains %d bytes; ReadLimit is %d", i, len(s), n, limit)
+			// one read may be larger than the limit; adding to what is already retained must not go beyond it
+			if limit > 0 && (n > limit+len(s) || (before > 0 && n > limit)) && o.violation == nil {
+				o.violation = fmt.Errorf("after segment %d (len %d) the parser retains %d bytes (%d before this read); ReadLimit is %d", i, len(s), n, before, limit)
 			}
 		}
 		if err != nil {
